@@ -177,6 +177,48 @@ func c35RegDiff(a, b []byte) string {
 	return fmt.Sprintf("%d bytes differ, first at offset %d (register %d): %d vs %d", n, first, first-7, a[first], b[first])
 }
 
+func c35MaxRegister(p uint8, h *hll.Plus) int {
+	b := c35Registers(p, h)
+	max := 0
+	for _, v := range b[7:] {
+		if int(v) > max {
+			max = int(v)
+		}
+	}
+	return max
+}
+
+// c35RankOverflowKey hashes (xxhash64) to a value whose bits after the 16 index bits start
+// with 31 zeros: register rank 32 at precision 16. Found by the thorough tier (seed 7, case
+// with 194 307 keys); kept as a fixed case because such keys occur once in 2^31.
+var c35RankOverflowKey = []byte{0x94, 0xfb, 0x74, 0x25, 0x29, 0x3f, 0xa7, 0xbe, 0xf9, 0x7a, 0x17, 0x76, 0xfe, 0x39, 0x93, 0x10}
+
+func c35RankOverflow(r *vkit.Run) {
+	for _, extra := range []int{0, 1000, 100000} {
+		h, _ := hll.NewPlus(16)
+		h.Add(c35RankOverflowKey)
+		for i := 0; i < extra; i++ {
+			h.Add(c35Key(0x5eed, i))
+		}
+		d, _ := hll.NewPlus(16)
+		d.Merge(h) // dense form
+		maxReg := c35MaxRegister(16, d)
+		r.Case(fmt.Sprint("rank-overflow/", extra), true)
+		if maxReg < 32 {
+			r.Inconclusive("fixed high-rank key no longer yields a register ≥ 32 (hash function changed?)")
+			continue
+		}
+		n := extra + 1
+		got := d.Count()
+		sigma := 1.04 / 256.0
+		r.Event("count_checked_high_rank_register", 1)
+		if diff := math.Abs(float64(got) - float64(n)); diff > 8*sigma*float64(n)+2 {
+			r.Violation("estimate_outside_error_bound", map[string]string{"precision": "16", "sketch": "dense_with_rank_32_register", "register_ge_32": "true"},
+				map[string]any{"true_cardinality": n, "count": got, "max_register": maxReg, "key_hex": fmt.Sprintf("%x", c35RankOverflowKey), "other_keys": extra})
+		}
+	}
+}
+
 func TestC35(t *testing.T) {
 	r := vkit.Start(t, "C35", "exploration")
 	defer r.Finish()
@@ -240,8 +282,8 @@ func TestC35(t *testing.T) {
 			}
 			r.Event("count_checked_"+what, 1)
 			if diff > bound(truth) {
-				r.Violation("estimate_outside_error_bound", feat("sketch", what), map[string]any{
-					"case": c, "what": what, "true_cardinality": truth, "count": got, "allowed_abs_error": bound(truth), "sigma": sigma})
+				r.Violation("estimate_outside_error_bound", feat("sketch", what, "register_ge_32", fmt.Sprint(c35MaxRegister(c.P, h) >= 32)), map[string]any{
+					"case": c, "what": what, "true_cardinality": truth, "count": got, "allowed_abs_error": bound(truth), "sigma": sigma, "max_register": c35MaxRegister(c.P, h)})
 			}
 		}
 		// leaf estimates + marshal round-trip of every representation that occurs
@@ -318,6 +360,7 @@ func TestC35(t *testing.T) {
 		checkCount("single", U, union)
 		c35Marshal(r, c, feat, "merged", L, leaves[0], reprs)
 	}
+	c35RankOverflow(r)
 	r.Extra("max_abs_error_in_sigmas_for_cardinality_ge_50", maxSig)
 	r.Extra("representations_marshalled", reprs)
 	r.Assume("error bound taken as |count − n| ≤ 8σ·n + 2 with σ = 1.04/√(2^p) (the HLL standard error); the absolute slack of 2 covers truncation to an integer for tiny sets")
